@@ -36,8 +36,10 @@ impl Check for Small {
         if q.len() != n as u64 {
             return fail("exact:Quantile::len", format!("len() = {} after {} observations", q.len(), n));
         }
-        let ulp = |v: f64| (v.abs() * f64::EPSILON).max(f64::MIN_POSITIVE);
-        if !ok.iter().any(|v| *v == got || (got - *v).abs() <= ulp(*v)) {
+        // spacing of the floating-point numbers at v (one unit in the last place)
+        let ulp = |v: f64| crate::hist::next_up(v.abs()) - v.abs();
+        let inside = got >= h[0] && got <= h[n - 1];
+        if !inside || !ok.iter().any(|v| *v == got || (got - *v).abs() <= ulp(*v)) {
             return fail(
                 "small-quantile",
                 format!("p = {:?}, observations {:?} (sorted {:?}): quantile() = {:?}, exact sample quantile is {:?}", c.p, c.xs, h, got, ok),
@@ -76,7 +78,7 @@ pub fn p_grid() -> Vec<f64> {
 pub const ALPHABET: [f64; 5] = [-1.5, 0.0, 2.0, 2.0, 7.25];
 
 pub fn run(cx: &Ctx) {
-    cx.set_rule("cases = (p, sequence of 1..4 observations): exhaustively every sequence over the 5-symbol alphabet {-1.5, 0, 2, 2, 7.25} (a duplicate included, i.e. all permutations of every multiset) x a p grid containing 0, 1, every k/n boundary, the values one ulp either side of each boundary, the smallest positive doubles and 49 spread values; plus generated values/p. Oracle: sort; t = n*p evaluated exactly as integer x power of two; whole t -> h[0], (h[k-1]+h[k])/2 or h[n-1]; t within 4 ulp of whole -> either adjacent convention; else h[ceil(t)-1]; equality up to 1 ulp of the average. Non-trivial = arrival order differs from sorted order; distinct = hash of (p bits, sequence bits)");
+    cx.set_rule("cases = (p, sequence of 1..4 observations): exhaustively every sequence over the 5-symbol alphabet {-1.5, 0, 2, 2, 7.25} (a duplicate included, i.e. all permutations of every multiset) x a p grid containing 0, 1, every k/n boundary, the values one ulp either side of each boundary, the smallest positive doubles and 49 spread values; plus generated values/p. Oracle: sort; t = n*p evaluated exactly as integer x power of two; whole t -> h[0], (h[k-1]+h[k])/2 or h[n-1]; t within 4 ulp of whole -> either adjacent convention; else h[ceil(t)-1]; equality up to 1 ulp of the (overflow-free) average; extreme magnitudes up to f64::MAX included. Non-trivial = arrival order differs from sorted order; distinct = hash of (p bits, sequence bits)");
     cx.assume("the exact-quantile convention is the one stated in property C07");
     let ps = p_grid();
     let np = ps.len() as u64;
@@ -91,7 +93,7 @@ pub fn run(cx: &Ctx) {
     cx.run_enum(&Small, total, |i| Some(QStream { p: ps[(i % np) as usize], xs: seqs[(i / np) as usize].clone() }), "all sequences of length 1..=4 over a 5-symbol alphabet with a duplicate x p grid of 100+ values (all k/n boundaries +- 1 ulp)");
     cx.label("generated");
     let strat = || {
-        (prop_oneof![2 => 0.0..=1.0f64, 1 => proptest::sample::select(p_grid())], vec(prop_oneof![3 => -1e6..1e6f64, 1 => (-30.0..30.0f64).prop_map(|e| 10f64.powf(e)), 1 => proptest::sample::select(vec![0.0, -0.0, 1.0, -1.0])], 1..5))
+        (prop_oneof![2 => 0.0..=1.0f64, 1 => proptest::sample::select(p_grid())], vec(prop_oneof![3 => -1e6..1e6f64, 1 => (-30.0..30.0f64).prop_map(|e| 10f64.powf(e)), 1 => proptest::sample::select(vec![0.0, -0.0, 1.0, -1.0]), 1 => proptest::sample::select(vec![f64::MAX, f64::MIN, 1e308, 1.5e308, -1e308, -1.7e308, 5e-324, -5e-324, f64::MIN_POSITIVE])], 1..5))
             .prop_map(|(p, xs)| QStream { p, xs })
     };
     cx.run_pt(&Small, cx.by(2000, 40000), cx.workers, strat, "random finite values, random p");
